@@ -8,7 +8,7 @@ import os
 from ..cfg import always_raises
 from ..const import CallVal, ConstEval, EnumVal, NameRef, NotConst, module_const
 from ..core import AnalysisError, calls_in, call_name, const_str, dotted, unparse, walk_no_nested
-from ..match import if_chain, inline, kwarg, returns_of, single_assignments
+from ..match import canon, if_chain, inline, kwarg, returns_of, single_assignments
 from ..poly import atoms, poly, poly_of_source, show
 from ..facts import assign_facts, return_facts
 from ..facts import show as show_facts
@@ -134,8 +134,8 @@ def r2_mirror_construction(ctx: Ctx) -> None:
     cparams = ctx.repo.func(MAPPING, "Mapping.__init__").params()[1:]
 
     def bound(c: ast.Call) -> dict[str, str]:
-        out = {p: unparse(a) for p, a in zip(cparams, c.args)}
-        out.update({k.arg: unparse(k.value) for k in c.keywords if k.arg})
+        out = {p: canon(mp.node, a) for p, a in zip(cparams, c.args)}
+        out.update({k.arg: canon(mp.node, k.value) for k in c.keywords if k.arg})
         return out
 
     prim, mirr = bound(ctor[0]), bound(ctor[1])
@@ -151,14 +151,14 @@ def r2_mirror_construction(ctx: Ctx) -> None:
             for rng in (br, mir):
                 if lo == f"{rng}[0]":
                     store = [s for s in lp.body if isinstance(s, ast.Assign) and unparse(s.targets[0]) == f"self.lookup[{unparse(lp.target)}]"]
-                    seen[rng] = (hi, unparse(store[0].value) if store else None)
+                    seen[rng] = (hi, canon(mp.node, store[0].value) if store else None)
     ctx.check(seen.get(br, (None,))[0] == f"{br}[1] + 1" and seen.get(br, (None, None))[1] == ident, "Bus.map:primary-lookup",
               f"every bank of the inclusive range resolves to the mapping; found {seen.get(br)}")
     mid = [unparse(s.value) for s in walk_no_nested(mp.node) if isinstance(s, ast.Assign) and unparse(s.targets[0]) == "mirror_identifier"]
-    ctx.check(seen.get(mir, (None,))[0] == f"{mir}[1] + 1" and seen.get(mir, (None, None))[1] == "mirror_identifier", "Bus.map:mirror-lookup",
+    ctx.check(seen.get(mir, (None,))[0] == f"{mir}[1] + 1" and seen.get(mir, (None, None))[1] == f"f'{{{ident}}}_mirror'", "Bus.map:mirror-lookup",
               f"every mirror bank resolves to the mirror mapping; found {seen.get(mir)}")
-    stores = {unparse(s.targets[0]): unparse(s.value) for s in walk_no_nested(mp.node) if isinstance(s, ast.Assign) and unparse(s.targets[0]).startswith("self.mappings[")}
-    ctx.check(stores.get(f"self.mappings[{ident}]") == unparse(ctor[0]) and stores.get("self.mappings[mirror_identifier]") == unparse(ctor[1]),
+    stores = {canon(mp.node, s.targets[0].slice): canon(mp.node, s.value) for s in walk_no_nested(mp.node) if isinstance(s, ast.Assign) and unparse(s.targets[0]).startswith("self.mappings[")}
+    ctx.check(stores.get(ident) == canon(mp.node, ctor[0]) and stores.get(f"f'{{{ident}}}_mirror'") == canon(mp.node, ctor[1]),
               "Bus.map:stores", "the two mappings are stored under the identifiers the lookups use")
     ctx.count("mirror_facts", 5)
 
